@@ -92,14 +92,16 @@ def read_cell(kind, node):
     return s
 
 
-def close(a, b, tol=1e-9):
+def close(a, b, tol=1e-9, scale=0.0):
+    """|a-b| <= tol * max(1, |a|, |b|, scale).  `scale` is the magnitude of the operands the value was computed from
+    (e.g. the largest |reward| of a history): a mean of large cancelling rewards is only accurate relative to them."""
     a = float(a)
     b = float(b)
     if a == b:
         return True
     if not (math.isfinite(a) and math.isfinite(b)):
         return False
-    return abs(a - b) <= tol * max(1.0, abs(a), abs(b))
+    return abs(a - b) <= tol * max(1.0, abs(a), abs(b), abs(float(scale)))
 
 
 def in_box(x, box):
